@@ -21,11 +21,15 @@ pub const SIGHASH_NONE: u8 = 2;
 pub const SIGHASH_SINGLE: u8 = 3;
 pub const SIGHASH_ANYONECANPAY: u8 = 0x80;
 
-/// The coin spent by a transparent input.
+/// The coin spent by a transparent input, and the script being executed when signing it.
 #[derive(Clone, Debug, PartialEq, Eq)]
 pub struct Coin {
     pub value: i64,
+    /// scriptPubKey of the coin (ZIP 244 S.2c and S.2g.iii commit to this).
     pub script: Vec<u8>,
+    /// scriptCode of the input being signed (ZIP 143 / ZIP 243 field 13b commit to this): equal to
+    /// the scriptPubKey for P2PKH, the redeem script for P2SH.
+    pub code: Vec<u8>,
 }
 
 #[derive(Clone, Copy, Debug, PartialEq, Eq, Hash, PartialOrd, Ord)]
@@ -358,15 +362,16 @@ fn legacy_sighash(s: &TxSpec, signing: Signing, coins: &[Coin]) -> [u8; 32] {
     d.extend((hash_type as u32).to_le_bytes());
     if let Some(i) = index {
         d.extend(outpoint_enc(&s.vin[i]));
-        d.extend(script_enc(&coins[i].script));
+        d.extend(script_enc(&coins[i].code));
         d.extend(coins[i].value.to_le_bytes());
         d.extend(s.vin[i].sequence.to_le_bytes());
     }
     hb(b"ZcashSigHash", s.branch, &d)
 }
 
-/// Signature hash. `coins[i]` is the coin spent by input `i` (for v3/v4 only the signed input's
-/// coin is used, its script being the scriptCode). `None` where undefined (pre-Overwinter).
+/// Signature hash. `coins[i]` is the coin spent by input `i`. ZIP 143/243 use only the signed
+/// input's value and scriptCode; ZIP 244 uses every coin's value and scriptPubKey and never the
+/// scriptCode. `None` where undefined (pre-Overwinter).
 pub fn sighash(s: &TxSpec, signing: Signing, coins: &[Coin]) -> Option<[u8; 32]> {
     match s.ver {
         Ver::Sprout(_) => None,
